@@ -63,6 +63,30 @@ CLAIMS = {
         'note': 'Decides agreement of the code summaries, not byte-identical outputs over histories or interleavings.',
         'technique': 'cross-checking sibling implementations via path summaries (static)',
     },
+    'C06': {
+        'text': 'Enumerates every interprocedural path of processIncomingPacket (TCP, RTU, ASCII, binary; callees inlined) and decides '
+                'four necessary conditions of chunking independence: deliveries lie inside a loop that continues after a delivery; on '
+                'every path that takes a data-absence outcome (length too small / end delimiter not found) nothing is discarded, raised '
+                'or delivered afterwards; header truthiness after construction equals that after reset when code branches on it; sizing '
+                'errors on partial data cannot escape. Eight genuine defects of the pinned tree are listed as known findings.',
+        'note': 'Only explicit length / delimiter tests classify as data absence. Equality of delivered sequences over all chunkings is not decided.',
+        'technique': 'interprocedural path enumeration with effect classification (buffer shrink / delivery / raise) (static)',
+    },
+    'C07': {
+        'text': 'Decides that every path to a delivery passes the true outcome of checkFrame and of checkCRC/checkLRC (MBAP length '
+                'check with the exact constant on TCP), that the checksum input range starts at the unit byte and ends where the '
+                'delivered PDU ends on the same buffer version, that the check value is read from the two bytes right after it, and that '
+                'checkCRC/checkLRC are equalities with the CRC constants 0xFFFF/0xA001.',
+        'note': 'Error-detection power of CRC-16/LRC and the arithmetic inside computeCRC/computeLRC are outside static reach.',
+        'technique': 'must-pass-through (dominance on enumerated paths) + affine slice-range comparison with versioned buffer (static)',
+    },
+    'C11': {
+        'text': 'Decides progress conditions per failure kind on RTU/ASCII/binary: after a failed integrity check, after a foreign-unit '
+                'frame and when garbage precedes a start delimiter the buffer shrinks before the call returns; receive loops reset the '
+                'framer or end the connection after a framer exception. Liveness over all futures and the two-frame bound are not decided.',
+        'note': 'Necessary conditions only; RTU in-stream resynchronisation is not decided.',
+        'technique': 'path enumeration + effect-after-event rules (static)',
+    },
 }
 
 _PENDING = 'check not built yet in this revision (planned, see DESIGN.md §2)'
